@@ -91,6 +91,17 @@ def check_cfg(fx, rep, crate, cfg):
                     cs = [e[2]['callee'].get('name') for e in ev2 if e[0] == 'call' and e[2]['callee'].get('name') not in
                           ('branch', 'into_future', 'poll', 'new_unchecked', 'get_context')]
                     origin = 'result of %s' % (cs[:3] or ['?'])
+        elif i != 'term' and v == 'Err' and st['rv']['k'] == 'aggr' and st['rv'].get('ops'):
+            # the spelled-out form: `match res { Ok(x) => x, Err(e) => return Err(e) }` - the error value is the Err payload of an arm's result
+            q = op_place(st['rv']['ops'][0])
+            locs, events = run.slice_back([q['l']]) if q else (set(), [])
+            for k, d in pl.items():
+                if any(l in d and d[l] == ('Err',) for l in locs):
+                    origin = S.arms[k]['kind']
+            if origin == 'unknown':
+                cs = [e[2]['callee'].get('name') for e in events if e[0] == 'call' and e[2]['callee'].get('name') not in ('into', 'from', 'into_future', 'poll', 'new_unchecked', 'get_context')]
+                origin = 'result of %s' % (cs[:3] or ['?'])
+        if True:
             if origin == 'accept':
                 ok = True
             elif origin == 'calls':
@@ -168,6 +179,12 @@ def check_cfg(fx, rep, crate, cfg):
         n_fail_paths = 0
         for name in sorted(err_blocks):
             ps = [p for p in paths if name in p[1] and p[0] == S.loop_head]
+            outs = [p for p in paths if name in p[1] and p[0] != S.loop_head]
+            if not ps and outs and all(isinstance(p[0], tuple) and p[0][:2] == ('end', 'return') for p in outs):
+                # not a failure arm but an exit of the server (the spelled-out `?`): every exit is judged by R09.1
+                rep.ok('R09.2', '%s|exit-not-failure|%s|%d|%s' % (fk, kind, sorted(err_blocks).index(name), cfg), '%s:%s' % (run.file, name.split('@')[1]),
+                       'this Err edge leaves Server::run: an exit (R09.1), not a failure that the loop survives', nontrivial=False)
+                continue
             n_fail_paths += len(ps)
             bad = [p for p in ps if 'remove-own' not in p[1]]
             line = name.split('@')[1]
